@@ -149,20 +149,33 @@ func (ck *Checker) replayPkg(scratch, pkgKey string, reqs []replayReq) {
 	}
 	for i, rq := range reqs {
 		_, fn := pkgOfEntry(rq.st.in.Entry)
-		inputs := make([]string, len(rq.v.Inputs))
-		for j, iv := range rq.v.Inputs {
-			inputs[j] = iv.Hex
+		try := func(v Violation) (string, string, string) {
+			inputs := make([]string, len(v.Inputs))
+			for j, iv := range v.Inputs {
+				inputs[j] = iv.Hex
+			}
+			rfile := map[string]interface{}{"harness": fn, "params": rq.st.in.Params, "inputs": inputs, "property": rq.st.in.Property, "instance": rq.st.in.Name,
+				"violation": map[string]string{"kind": v.Kind, "key": v.Key, "site": v.Site, "msg": v.Msg}, "stubs": v.Stubs, "clock": v.Clock, "randints": v.RandInts, "schedule": v.Schedule, "endpoints": v.Endpoints, "stub_sets": rq.st.in.Stubs,
+				"how_to_replay": "gosym builds the package with the harness overlay (go test -c -overlay) and runs TestZZReplay with ZZVERIF_REPLAY=<this file>"}
+			b, _ := json.MarshalIndent(rfile, "", " ")
+			dir := filepath.Join("/verif/replays", rq.st.in.Property)
+			os.MkdirAll(dir, 0o755)
+			path := filepath.Join(dir, fmt.Sprintf("%s-%d.json", sanitize(rq.st.in.Name), i))
+			os.WriteFile(path, b, 0o644)
+			res, msg := ck.runReplay(bin, filepath.Join(ck.repo, pkg), path, rq)
+			return path, res, msg
 		}
-		rfile := map[string]interface{}{"harness": fn, "params": rq.st.in.Params, "inputs": inputs, "property": rq.st.in.Property, "instance": rq.st.in.Name,
-			"violation": map[string]string{"kind": rq.v.Kind, "key": rq.v.Key, "site": rq.v.Site, "msg": rq.v.Msg}, "stubs": rq.v.Stubs, "clock": rq.v.Clock, "randints": rq.v.RandInts, "schedule": rq.v.Schedule, "endpoints": rq.v.Endpoints, "stub_sets": rq.st.in.Stubs,
-			"how_to_replay": "gosym builds the package with the harness overlay (go test -c -overlay) and runs TestZZReplay with ZZVERIF_REPLAY=<this file>"}
-		b, _ := json.MarshalIndent(rfile, "", " ")
-		dir := filepath.Join("/verif/replays", rq.st.in.Property)
-		os.MkdirAll(dir, 0o755)
-		path := filepath.Join(dir, fmt.Sprintf("%s-%d.json", sanitize(rq.st.in.Name), i))
-		os.WriteFile(path, b, 0o644)
-		rq.v.replayFile = path
-		rq.v.replay, rq.v.replayMsg = ck.runReplay(bin, filepath.Join(ck.repo, pkg), path, rq)
+		rq.v.replayFile, rq.v.replay, rq.v.replayMsg = try(rq.v.Violation)
+		// the same violation may have been found with several inputs; one that reproduces is enough
+		for _, alt := range rq.v.alts {
+			if rq.v.replay != "unconfirmed" {
+				break
+			}
+			if f, res, msg := try(alt); res == "confirmed" {
+				rq.v.Violation = alt
+				rq.v.replayFile, rq.v.replay, rq.v.replayMsg = f, res, msg
+			}
+		}
 	}
 }
 
